@@ -7,6 +7,12 @@ CHECKS = {
  "C07": ("yuv", "exhaustive enumeration of the finite input domain (2^24 colours x 8 code positions) against a fixed-point reference model",
          "Every one of the 16,777,216 (Y,Cb,Cr) triples is pushed through yuv420_to_rgba in every SIMD lane and every remainder slot, alone and among contrasting neighbours, and compared with a 16.16 model derived from the real BT.601 constants; the full result table is checked for monotonicity. The domain is finite, so this is a complete decision for the per-pixel formula.",
          "Trusts the model's derivation of the coefficients from the BT.601 reals and the C07 layout argument (7x1 pictures reach lanes 0..3 and remainder slots 0..2).", "3.7"),
+ "C09": ("deblock", "exhaustive enumeration of the kernel input domain (2^32 patterns x 12 strengths x vector/scalar slot x both passes) plus bounded-exhaustive shape sweep against a scalar Annex J model",
+         "The four-sample kernel is decided over its whole finite domain (thorough: all 2^32 x 12 in a vector lane and in the scalar remainder of both passes; quick: all 2^32 for one strength + a 32x32 (A,B) lattice x all (C,D) elsewhere) through the public deblock() on images that isolate one pass; whole-image behaviour (edge positions, pass order, untouched samples, incomplete edges) is compared with an edge-by-edge model for every width x height in a dense range x 12 strengths x 6 contents.",
+         "Trusts the i32 transcription of the Annex J formulas and Table J.2; images larger than the shape bound are represented by their residues mod 8.", "3.9"),
+ "C16": ("deblock", "bounded-exhaustive shape sweep (all widths x heights x strengths up to a bound) + literal table comparison",
+         "Every width 1..64 x height 0..64 (thorough 128) x strength 1..12 x 2 contents is run under catch_unwind with overflow checks: no panic, length preserved, equal to the model (which has no edge when fewer than 10 rows/columns). The 31 table entries are compared with the literal Table J.2.",
+         "Sizes beyond the bound are not enumerated; the loop bounds depend on size only through comparisons against small constants, all of which lie inside the bound.", "3.16"),
  "C08": ("yuv", "bounded-exhaustive shape sweep (all widths x heights up to a bound x content classes incl. all row/column equality patterns) against an index-map model",
          "All picture shapes in a dense range, each with eight content classes and every row/column-equality pattern on small shapes, compared pixel by pixel with conv(Y[x,y], Cb[x/2,y/2], Cr[x/2,y/2]); plus the empty picture.",
          "Per-pixel conversion taken from the C07 model; shapes beyond the bound are represented by their residues mod 4 / mod 2.", "3.8"),
